@@ -1,0 +1,41 @@
+//go:build verif
+
+package runtime
+
+// Verification hooks (see /verif/DESIGN.md §2.3). Only compiled with `-tags verif`.
+// The callbacks must be set before any core is started and not changed while cores run.
+
+var (
+	// Called before every executed instruction of a core.
+	VerifStep func(c *Core)
+	// Called just before a core sends its final signal to the waiting host.
+	VerifCoreExit func(c *Core)
+	// Called when a thrown exception is dispatched to a catch label (before unwinding).
+	VerifCatch func(c *Core)
+	// Called at named scheduling points so that a harness can perturb the schedule.
+	VerifYield func(site string)
+)
+
+func verifStep(c *Core) {
+	if VerifStep != nil {
+		VerifStep(c)
+	}
+}
+
+func verifCoreExit(c *Core) {
+	if VerifCoreExit != nil {
+		VerifCoreExit(c)
+	}
+}
+
+func verifCatch(c *Core) {
+	if VerifCatch != nil {
+		VerifCatch(c)
+	}
+}
+
+func verifYield(site string) {
+	if VerifYield != nil {
+		VerifYield(site)
+	}
+}
